@@ -75,6 +75,8 @@ def main(run, tier):
               'calmjs.parse.unparsers.walker', 'calmjs.parse.unparsers.base', 'calmjs.parse.ruletypes'):
         run.function(f, scratch.sha256_file(scratch.module_path(f))[:16])
     run.floor = 150
+    from . import printfwd
+    printfwd.add(run, tier)
     from . import printobl
     printobl.print_obligations(run, g, ('pretty',))
     from . import sepobl
